@@ -5,9 +5,9 @@
 V="$(cd "$(dirname "$0")/.." && pwd)"
 d=$1; id=$2; shift 2
 "$V/tools/scratch.sh" sync "$d"
-git -C "$d/repo" checkout -q -- . ; git -C "$d/repo" apply "$V/seeded/$id/patch.diff" || { echo "patch does not apply"; exit 2; }
+git -C "$d/repo" checkout -q -- . ; git -C "$d/repo" clean -fdq src ; git -C "$d/repo" apply "$V/seeded/$id/patch.diff" || { echo "patch does not apply"; exit 2; }
 for p in "$@"; do
   ( cd "$d/verif" && ./check $p --tier ${TIER:-quick} > "$d/try-$id-$p.log" 2>&1 ); code=$?
   echo "$id: check $p exit=$code $(grep -m1 'rule=' "$d/try-$id-$p.log" | sed 's/^ *//' | cut -c1-200)"
 done
-git -C "$d/repo" checkout -q -- .
+git -C "$d/repo" checkout -q -- . ; git -C "$d/repo" clean -fdq src
